@@ -66,13 +66,16 @@ theorem documented_strings_pinned :
     Gen.EFMT_CONSTS.all (fun p => match Format.ofGen p.2 with | some f => f.wf | none => false) = true := by
   decide +kernel
 
-/-- the two constants without a documented string are what their doc comments describe —
-    `RFC3339_FLEX` exactly; `ISO8601_STD` up to a trailing separator `' '` on its last item (which is
-    never printed): it equals `from_str` of the described string followed by a space -/
+/-- the two constants without a documented string are exactly what their doc comments describe ("The RFC3339
+    format unless the subseconds are zero", "The ISO8601 format without the time scale"; `ISO8601_STD` since
+    fix D41 — before, it carried a trailing separator) -/
 theorem undocumented_consts :
     constIs ("RFC3339_FLEX", Cal.strCodes "%Y-%m-%dT%H:%M:%S.%f?%z") = true ∧
-    constIs ("ISO8601_STD", Cal.strCodes "%Y-%m-%dT%H:%M:%S.%f ") = true ∧
-    constIs ("ISO8601_STD", Cal.strCodes "%Y-%m-%dT%H:%M:%S.%f") = false := by decide +kernel
+    constIs ("ISO8601_STD", Cal.strCodes "%Y-%m-%dT%H:%M:%S.%f") = true := by decide +kernel
+
+/-- hence ALL nine constants are `Format::from_str` of the string the specification writes down for them -/
+theorem all_consts_match_spec_strings :
+    Spec.Efmt.documented.all (fun p => constIs (p.1, Spec.Efmt.codes p.2)) = true := by decide +kernel
 
 /-! ### per token output -/
 
@@ -245,26 +248,30 @@ theorem parse_back_partial (O : Oracles) (f : Format) (e : Ep) (hc : numClass f 
   parse_back_numClass O f e hc hutc hd hr hy
 
 /-- PARTIAL (D25): the same with a final `%T` — formats of the class `numTClass` (numeric items as above,
-    then a non-optional `%T`; the numeric item before it has exactly one separator) -/
+    then a non-optional `%T`; the numeric item before it has exactly one separator) — for epochs in ANY of
+    the nine time scales (beyond the letter of the clause: the final `%T` is read since fix D39, so the text
+    determines the epoch and the result is the epoch itself, same scale) -/
 theorem parse_back_with_time_scale_partial (O : Oracles) (f : Format) (e : Ep) (hc : numTClass f = true)
-    (hutc : e.ts = TS.UTC) (hd : e.dur.Canon) (hr : Cal.InCal e.dur.val)
+    (hd : e.dur.Canon) (hr : Cal.InCal e.dur.val)
     (hy : ∀ y mo dd h mi s ns, Cal.computeGregorian e.dur e.ts = .ok (y, mo, dd, h, mi, s, ns) → 0 ≤ y ∧ y ≤ 9999) :
     ∃ text, formatterOutput O f e none = .ok text ∧ formatParse O f text = .ok e :=
-  parse_back_numTClass O f e hc hutc hd hr hy
+  parse_back_numTClass O f e hc hd hr hy
 
-/-- in particular the predefined `ISO8601` (the default text form) and `ISO8601_STD` parse back for EVERY
-    canonical UTC epoch in range with year 0000–9999 -/
-theorem iso8601_parses_back (O : Oracles) (e : Ep) (hutc : e.ts = TS.UTC) (hd : e.dur.Canon) (hr : Cal.InCal e.dur.val)
+/-- in particular the predefined `ISO8601` (the default text form) parses back for EVERY canonical epoch in
+    range with year 0000–9999 IN ANY TIME SCALE, and `ISO8601_STD` for every such UTC epoch -/
+theorem iso8601_parses_back (O : Oracles) (e : Ep) (hd : e.dur.Canon) (hr : Cal.InCal e.dur.val)
     (hy : ∀ y mo dd h mi s ns, Cal.computeGregorian e.dur e.ts = .ok (y, mo, dd, h, mi, s, ns) → 0 ≤ y ∧ y ≤ 9999) :
     (∃ f text, constByName? "ISO8601" = some f ∧ formatterOutput O f e none = .ok text ∧ formatParse O f text = .ok e) ∧
-    (∃ f text, constByName? "ISO8601_STD" = some f ∧ formatterOutput O f e none = .ok text ∧ formatParse O f text = .ok e) := by
+    (e.ts = TS.UTC →
+      ∃ f text, constByName? "ISO8601_STD" = some f ∧ formatterOutput O f e none = .ok text ∧ formatParse O f text = .ok e) := by
   have h1 : ∃ f, constByName? "ISO8601" = some f ∧ numTClass f = true := by decide +kernel
   have h2 : ∃ f, constByName? "ISO8601_STD" = some f ∧ numClass f = true := by decide +kernel
   obtain ⟨f1, hf1, hc1⟩ := h1
   obtain ⟨f2, hf2, hc2⟩ := h2
-  obtain ⟨t1, ht1⟩ := parse_back_numTClass O f1 e hc1 hutc hd hr hy
+  obtain ⟨t1, ht1⟩ := parse_back_numTClass O f1 e hc1 hd hr hy
+  refine ⟨⟨f1, t1, hf1, ht1⟩, fun hutc => ?_⟩
   obtain ⟨t2, ht2⟩ := parse_back_numClass O f2 e hc2 hutc hd hr hy
-  exact ⟨⟨f1, t1, hf1, ht1⟩, ⟨f2, t2, hf2, ht2⟩⟩
+  exact ⟨f2, t2, hf2, ht2⟩
 
 /-- PARTIAL (D25): parse back WITH A TIME-ZONE OFFSET — formats of the class `numZClass` (numeric items with
     separators, a last numeric item without separator, a final non-optional `%z`: the layout of RFC 3339), any
@@ -313,14 +320,13 @@ example : backOf "%d/%m/%Y, %H:%M:%S.%f" ⟨⟨0, 86400000000037⟩, .UTC⟩ = .
 /-- counterexamples of the full statement, one per recorded class of D25 (all formats are plain
     full-date formats of the property; epoch 1900-01-02T00:00:00.000000037 UTC, a Tuesday):
     (a) numeric tokens without separator; (b) `%T` not last; (d) a name token whose separator letter
-    occurs in the name (`%AT`, "Tuesday"); (d') a non-white second separator before a name token;
-    (f) a month name in last place as the only month. -/
+    occurs in the name (`%AT`, "Tuesday"); (d') a non-white second separator before a name token.
+    (The former class (f), a month name in last place, is repaired: D39.) -/
 theorem parse_back_counterexamples :
     backOf "%Y%m%d%H%M%S%f" ⟨⟨0, 86400000000037⟩, .UTC⟩ ≠ .ok ⟨⟨0, 86400000000037⟩, .UTC⟩ ∧
     backOf "%Y-%m-%d %T %H:%M:%S.%f" ⟨⟨0, 86400000000037⟩, .UTC⟩ ≠ .ok ⟨⟨0, 86400000000037⟩, .UTC⟩ ∧
     backOf "%AT%Y-%m-%d %H:%M:%S.%f" ⟨⟨0, 86400000000037⟩, .UTC⟩ ≠ .ok ⟨⟨0, 86400000000037⟩, .UTC⟩ ∧
-    backOf "%Y-%m-%d,;%A %H:%M:%S.%f" ⟨⟨0, 86400000000037⟩, .UTC⟩ ≠ .ok ⟨⟨0, 86400000000037⟩, .UTC⟩ ∧
-    backOf "%Y %d %H:%M:%S.%f %B" ⟨⟨0, 86400000000037⟩, .UTC⟩ ≠ .ok ⟨⟨0, 86400000000037⟩, .UTC⟩ := by
+    backOf "%Y-%m-%d,;%A %H:%M:%S.%f" ⟨⟨0, 86400000000037⟩, .UTC⟩ ≠ .ok ⟨⟨0, 86400000000037⟩, .UTC⟩ := by
   decide +kernel
 
 /-- the offset theorem on a concrete case through the whole model: 1900-01-02T00:00:00.000000037 UTC printed
@@ -333,7 +339,11 @@ example : (match formatterOutput O0 (fmtOf "%Y-%m-%dT%H:%M:%S.%f%z") ⟨⟨0, 86
     harmless separators, `%j`, a final `%T`, `%z`): exercised on every run by the correspondence check -/
 example : backOf "%A, %d %B %Y %H:%M:%S.%f" ⟨⟨0, 86400000000037⟩, .UTC⟩ = .ok ⟨⟨0, 86400000000037⟩, .UTC⟩ ∧
     backOf "%Y-%j %H:%M:%S.%f %T" ⟨⟨0, 86400000000037⟩, .UTC⟩ = .ok ⟨⟨0, 86400000000037⟩, .UTC⟩ ∧
-    backOf "%Y-%m-%dT%H:%M:%S.%f%z" ⟨⟨0, 86400000000037⟩, .UTC⟩ = .ok ⟨⟨0, 86400000000037⟩, .UTC⟩ := by
+    backOf "%Y-%m-%dT%H:%M:%S.%f%z" ⟨⟨0, 86400000000037⟩, .UTC⟩ = .ok ⟨⟨0, 86400000000037⟩, .UTC⟩ ∧
+    -- repaired by D39: a final month name, a final weekday after a number without separator, a final `%T` in TAI
+    backOf "%Y %d %H:%M:%S.%f %B" ⟨⟨0, 86400000000037⟩, .UTC⟩ = .ok ⟨⟨0, 86400000000037⟩, .UTC⟩ ∧
+    backOf "%Y-%m-%d %H:%M:%S.%f%a" ⟨⟨0, 86400000000037⟩, .UTC⟩ = .ok ⟨⟨0, 86400000000037⟩, .UTC⟩ ∧
+    backOf "%Y-%m-%dT%H:%M:%S.%f %T" ⟨⟨0, 86400000000037⟩, .TAI⟩ = .ok ⟨⟨0, 86400000000037⟩, .TAI⟩ := by
   decide +kernel
 
 end Hifi.C19
